@@ -161,6 +161,11 @@ func (pr *vParseRun) one(stream []byte, cuts []int, ref string, wellFormed bool)
 	cmds, st := vTextParse(chunks)
 	obs := vShowParse(cmds, st)
 	pr.out.emit(op, obs)
+	if st == "panic" {
+		// C13: no byte stream may crash the request parser (the connection goroutine has no recover: the process would die)
+		pr.mon.report("C13:text-parser-panics:request", "TextParser.ParseRequest panics on a byte stream a client can send",
+			map[string]interface{}{"stream": vHex(stream), "chunks": vHexList(chunks), "stream_text": fmt.Sprintf("%q", string(stream[:vMinInt(len(stream), 80)]))})
+	}
 	if wellFormed && ref != "" && obs != ref {
 		pr.mon.report("C14:chunking", "the same well-formed request stream parses differently under two chunkings",
 			map[string]interface{}{"stream": vHex(stream), "chunking_a": "single chunk", "result_a": ref, "chunking_b": vHexList(chunks), "result_b": obs})
@@ -358,6 +363,9 @@ func vTextParserCases(r *rand.Rand, out *vOut, mon *vMonLimiter, n int, thorough
 	bad := []string{"*0\r\n", "*1\n$1\na\n", "\n", "*1\r\n$1\r\na\n", "*1\r\n$1\r\na\r", "*-1\r\n$-1\r\n\r\n", "*0\r\n$-1\r\n\r\n", "*1\r\n$+1\r\na\r\n", "*+1\r\n$1\r\na\r\n",
 		"*\r\n", "*1\r\n$\r\n", "*1\r1\r\n$1\r\na\r\n$1\r\nb\r\n", "*99999999999999999999\r\n", "*9223372036854775807\r\n$0\r\n\r\n", "*1\r\n$9223372036854775808\r\n",
 		"*" + strings.Repeat("0", 127) + "1\r\n$1\r\na\r\n", "*" + strings.Repeat("0", 128) + "1\r\n$1\r\na\r\n", "*1\r\n$" + strings.Repeat("0", 128) + "\r\n\r\n",
+		// the 128-byte digit accumulator: 129 and more bytes without a line end, at the count line and at a length line (first and later argument)
+		"*1\r\n$" + strings.Repeat("0", 129) + "\r\n\r\n", "*1\r\n$" + strings.Repeat("7", 130), "*2\r\n$3\r\nGET\r\n$" + strings.Repeat("1", 129), "*2\r\n$3\r\nGET\r\n$1\r" + strings.Repeat("x", 200) + "\r\n",
+		"*" + strings.Repeat("9", 129), "*" + strings.Repeat("9", 300) + "\r\n$1\r\na\r\n",
 		"+OK\r\n", "$1\r\na\r\n", "*1\r\n*1\r\n", "*1\r\n$1\r\nabc\r\n", "*1\r\n$3\r\na\r\n\r\n", "*2\r\n$1\r\na\r\n", "*1\r\n$1\r\naJUNK\n", "*1\r\n$1\r\naJUNK\r\n*1\r\n$1\r\nb\r\n",
 		"*1\r\n$0\r\n\n", "*1\r\n$0\r\nx\r\n", "*1 \r\n$1\r\na\r\n", "*0x1\r\n", "*1_0\r\n", "*1\r\n$-0\r\n\r\n", "*-0\r\n$0\r\n\r\n", "*1\r\n$1\r\n\n\r\n", "*1\r\n$2\r\n\r\n\r\n"}
 	for _, s := range bad {
